@@ -132,6 +132,54 @@ pub fn set_affinity_full() {
     }
 }
 
+thread_local! {
+    /// The CPU this exploring thread — and every thread of the stores it drives — lives on.
+    /// Threads of one execution hand the CPU to each other all the time (token passing,
+    /// flush requests and answers); on one CPU that is a context switch, across CPUs it is
+    /// a wake-up of an idle core, which costs up to a millisecond on a loaded host.
+    static HOME_CPU: std::cell::Cell<Option<usize>> = const { std::cell::Cell::new(None) };
+}
+
+pub fn home_cpu() -> Option<usize> {
+    HOME_CPU.with(|h| h.get())
+}
+
+pub fn set_affinity_one(cpu: usize) {
+    unsafe {
+        let mut set: libc::cpu_set_t = std::mem::zeroed();
+        libc::CPU_SET(cpu, &mut set);
+        libc::sched_setaffinity(0, std::mem::size_of::<libc::cpu_set_t>(), &set);
+    }
+}
+
+/// Pin the calling thread to `cpu` (None: all CPUs) and remember it as its home.
+pub fn set_home_cpu(cpu: Option<usize>) {
+    HOME_CPU.with(|h| h.set(cpu));
+    restore_home_affinity();
+}
+
+/// A child process of the harness: starts with the full CPU mask, whatever CPU the
+/// spawning thread is pinned to.
+pub fn child_command(exe: &std::path::Path) -> std::process::Command {
+    use std::os::unix::process::CommandExt;
+    let mut c = std::process::Command::new(exe);
+    let set = CpuSet(full_cpu_set());
+    unsafe {
+        c.pre_exec(move || {
+            libc::sched_setaffinity(0, std::mem::size_of::<libc::cpu_set_t>(), &set.0);
+            Ok(())
+        });
+    }
+    c
+}
+
+pub fn restore_home_affinity() {
+    match home_cpu() {
+        Some(c) => set_affinity_one(c),
+        None => set_affinity_full(),
+    }
+}
+
 /// Run `f` while the calling thread sees exactly `n` CPUs (so that `num_cpus::get()`
 /// inside reports `n`), then restore the full mask. Returns None if fewer CPUs exist.
 pub fn with_visible_cpus<T>(n: usize, rotate: usize, f: impl FnOnce() -> T) -> Option<T> {
@@ -149,7 +197,7 @@ pub fn with_visible_cpus<T>(n: usize, rotate: usize, f: impl FnOnce() -> T) -> O
         }
     }
     let out = f();
-    set_affinity_full();
+    restore_home_affinity();
     Some(out)
 }
 
@@ -175,6 +223,10 @@ pub fn par_for_each<T: Send>(
             let queue = &queue;
             let f = &f;
             scope.spawn(move || loop {
+                if threads > 1 && home_cpu().is_none() && std::env::var_os("VERIF_NO_PIN").is_none() {
+                    let cpus = cpus_available();
+                    set_home_cpu(Some(cpus[t % cpus.len()]));
+                }
                 if stop.load(Ordering::Relaxed) {
                     break;
                 }
